@@ -31,6 +31,22 @@ Statement -> term mapping
                                      then returns `Option _`; `none` = the optimised build panics)
   a.is_some() && a.unwrap() == b     a.isSome && a == some b
   obj.mutating_method(..);           let obj := R.method obj ..      (or `let obj <- ..` if it can panic)
+  if c { x = e1; y = e2; }           let x := if c then e1 else x; let y := if c then e2 else y   (independent e_i)
+  if c {..}  updating x and y        let st := if c then (..; (x, y)) else (x, y); let x := st.1; let y := st.2
+  let (a, b) = { ..; (e1, e2) };     let a_b := (..; (e1, e2)); let a := a_b.1; let b := a_b.2
+  let x = if c {..} else {..};       let x := if c then .. else ..
+  let mut n = 0; / Vec::with_capacity(..)   the type is taken from the later uses (i32 -> Int, Vec<Mv> -> List Mv)
+  v.push(e);                         let v := v ++ [e]
+Functions with a callback parameter `func: impl FnMut(Piece, Square, Square, Piece)` are compiled to the LIST of the
+callback invocations in order (`List GMv`):
+  func(a, b, c, d);                  [gm a b c d]                      (consecutive calls: one list literal)
+  s1; s2                             calls1 ++ calls2                  (each compound statement is `let callsK := ..`)
+  if c {..} [else {..}]              if c then .. else .. / []
+  for x in bb {..}                   (toList bb).flatMap (fun x => ..)   (`map` when the body is a single call)
+  obj.method(|a, b, c, d| { body })  let v := (R.method obj).foldl (fun v g => let a := g.piece; ..; body) v
+                                     (`return;` in the closure body ends that invocation)
+Functions whose bodies START with the same statements (compared as syntax trees; move_generator / count_moves) have
+the shared statements compiled once, as `R.<name>_prefix`, returning the tuple of the variables used afterwards.
 """
 import os
 import re
@@ -293,7 +309,8 @@ class Parser:
         if self.peek() in ASSIGN_OPS:
             op = self.eat()
             rhs = self.expr()
-            self.eat(";")
+            if self.peek() != "}":
+                self.eat(";")
             return ("assign", op, e, rhs)
         if self.peek() == ";":
             self.eat(";")
@@ -537,7 +554,7 @@ def find_fn(src, name, what):
 # model representation:  BB = BitVec 64 (Bitboard, u64 hash), Sq/Nat = Nat, Int = i32, Pc = Nat (Piece),
 # Colour = Bool (true = Black), Side = Bool (true = Them), Score = Int x Int, Pos = Position, Mv, ("Opt", t)
 LEAN_TY = {"BB": "BB", "Sq": "Nat", "Nat": "Nat", "Int": "Int", "Bool": "Bool", "Pc": "Pc", "Colour": "Bool",
-           "Side": "Bool", "Score": "Score", "Pos": "Position", "Mv": "Mv", "Str": "String"}
+           "Side": "Bool", "Score": "Score", "Pos": "Position", "Mv": "Mv", "Str": "String", "GMv": "GMv"}
 
 
 def lean_ty(t):
@@ -669,6 +686,8 @@ class Ctx:
         self.pending = []        # binds to emit before the current statement
         self.shortcircuit = 0
         self.names = set()
+        self.in_closure = False
+        self.closure_fall = None
 
     def child(self):
         c = Ctx(self.tr, self.monadic, self.rettype)
@@ -676,6 +695,8 @@ class Ctx:
         c.unwrapped = dict(self.unwrapped)
         c.guards = set(self.guards)
         c.names = self.names
+        c.in_closure = self.in_closure
+        c.closure_fall = self.closure_fall
         return c
 
     def fresh(self, base):
@@ -764,6 +785,8 @@ class Translator:
             return Ex(x.text, ty, x.const)
         if is_opt(ty) and is_opt(x.ty) and (x.ty[1] == "?" or x.ty[1] == ty[1]):
             return Ex(x.text, ty)
+        if isinstance(ty, tuple) and ty[0] == "List" and isinstance(x.ty, tuple) and x.ty[0] == "List" and x.ty[1] in ("?", ty[1]):
+            return Ex(x.text, ty)
         raise TranslateError(f"{what}: expected {ty}, got {x.ty} (`{x.text}`)")
 
     def app(self, f, args):
@@ -797,6 +820,8 @@ class Translator:
             if a.ty != "SqIdx":
                 raise TranslateError(key + " of a non-constant")
             return Ex(f"(Rawr.bit {a.text})", "BB") if key.startswith("Bitboard") else Ex(a.text, "Sq", a.const)
+        if key == "Vec::with_capacity" and len(args) == 1:
+            return Ex("[]", ("List", "?"))
         if key == "Score::default" and not args:
             return Ex("((0, 0) : Score)", "Score")
         if key == "rays::pawns" and len(gen) == 1 and gen[0] in ("true", "false") and len(args) == 1:
@@ -953,6 +978,8 @@ class Translator:
             return Ex(f"(Rawr.col {x.text})", "Nat")
         if x.ty in ("Pc", "SqIdx"):
             return Ex(x.text, "Nat", x.const)
+        if x.ty == "Int" and e[2][0] == "ty" and e[2][1] in ("usize", "u64", "u8"):
+            return Ex(f"(Int.toNat {x.text})", "Nat")    # i32 -> unsigned (the counts are non-negative)
         if x.ty in ("Nat", "Sq", "Int", "Lit"):
             return x                          # numeric casts: the model keeps squares/files as Nat, i32 as Int
         raise TranslateError(f"cast of {x.ty}")
@@ -1135,6 +1162,12 @@ class Translator:
                         add(self.root_var(x, c))
                 else:
                     add(self.root_var(lhs, c))
+            elif s[0] in ("expr", "tail") and self.is_push(s[1], c):
+                add(s[1][1][1][0])
+            elif s[0] in ("expr", "tail") and self.is_closure_call(s[1], c):
+                clo = s[1][4][0]
+                for v in self.assigned(clo[2], c, set(declared) | set(clo[1])):
+                    add(v)
             elif s[0] == "expr":
                 e = s[1]
                 if e[0] == "mcall":
@@ -1314,6 +1347,12 @@ class Translator:
     def wrap(self, c, text):
         return f"pure {text}" if c.monadic else text
 
+    def unpack(self, st, vars_, names, tys, c, ind, lines):
+        """`let a := st.1; let b := st.2.1; ...` for a tuple of updated variables."""
+        for k, (v, n, t) in enumerate(zip(vars_, names, tys)):
+            proj = ".2" * k + (".1" if k < len(names) - 1 else "")
+            lines.append(" " * ind + self.letline(n, t, st + proj))
+
     def tuple_of(self, names):
         return names[0] if len(names) == 1 else "(" + ", ".join(names) + ")"
 
@@ -1331,11 +1370,17 @@ class Translator:
             rest = stmts[i + 1:]
             k = s[0]
             if k == "let":
-                self.do_let(s, c, ind, lines)
+                self.do_let(s, c, ind, lines, rest, mode, fall)
             elif k == "assign":
                 self.do_assign(s, c, ind, lines)
             elif k == "expr":
                 self.do_expr_stmt(s[1], c, ind, lines)
+            elif k == "return" and s[1] is None and mode == "effect" and getattr(c, "in_closure", False):
+                if rest:
+                    raise TranslateError("statements after `return`")
+                self.flush(c, ind, lines)
+                lines.append(" " * ind + c.closure_fall())
+                return lines
             elif k in ("return", "tail"):
                 if mode == "effect":
                     if k == "tail" and s[1][0] == "unit":
@@ -1372,7 +1417,7 @@ class Translator:
         lines.append(" " * ind + f)
         return lines
 
-    def do_let(self, s, c, ind, lines):
+    def do_let(self, s, c, ind, lines, rest=None, mode=None, fall=None):
         _, pat, mutable, ty, e = s
         if pat[0] == "pvar" and e[0] == "ifexpr":
             # let x = if .. { a } else { b };
@@ -1420,8 +1465,24 @@ class Translator:
         if ty is not None:
             vty = conv_type(ty)
             v = self.coerce(v, vty, "let")
-        if vty == "Lit":
-            raise TranslateError(f"let {name}: cannot determine the type of a bare literal")
+        if vty == "Lit" or vty == ("List", "?"):
+            # `let mut count = 0;` / `let mut v = Vec::with_capacity(..)`: the type is fixed by the later uses
+            cands = ["Int", "Nat"] if vty == "Lit" else [("List", "Mv")]
+            chosen = None
+            for cand in cands if rest is not None else []:
+                trial = c.child()
+                trial.names = set(c.names)
+                trial.env[name] = (lname(name), cand, mutable)
+                try:
+                    self.block(rest, trial, ind, mode, fall)
+                    chosen = cand
+                    break
+                except (TranslateError, NeedMonad):
+                    continue
+            if chosen is None:
+                raise TranslateError(f"let {name}: cannot determine the type of `{v.text}` from its uses")
+            vty = chosen
+            v = Ex(v.text, vty, v.const)
         if vty == "SqIdx":
             vty = "Sq"
         ln = lname(name)
@@ -1434,6 +1495,17 @@ class Translator:
             c.unwrapped[ln] = c.unwrapped[v.text]
 
     def do_expr_stmt(self, e, c, ind, lines):
+        if self.is_closure_call(e, c):
+            return self.closure_loop(e, c, ind, lines)
+        if self.is_push(e, c):
+            n = e[1][1][0]
+            ln, ty, mut = c.env[n]
+            if not mut:
+                raise TranslateError("push on an immutable binding")
+            v = self.coerce(self.ex(e[4][0], c), ty[1], "push")
+            self.flush(c, ind, lines)
+            lines.append(" " * ind + self.letline(ln, ty, f"({ln} ++ [{v.text}])"))
+            return
         if e[0] == "mcall":
             info = self.method_info(e, c)
             if info is not None and info.mutself:
@@ -1498,7 +1570,7 @@ class Translator:
                 return True
             self.effect_if(branches, els, c, ind, lines)
             return False
-        if not value_pos:
+        if not value_pos and not (mode == "effect" and getattr(c, "in_closure", False)):
             raise TranslateError("`return` inside a block that only updates variables")
         all_ret = all(self.always_returns(b, not rest) for _, b in branches) and (els is None or self.always_returns(els, not rest))
         if all_ret:
@@ -1511,7 +1583,7 @@ class Translator:
                        None if els is not None else tail)
             return True
         # some branch may fall through and some may return: join through an Option
-        if mode != "value" or c.monadic:
+        if mode != "value" or c.monadic or getattr(c, "in_closure", False):
             raise TranslateError("mixed return / fall-through `if` is only supported at the top level of a pure function")
         r = c.fresh("early")
         jl = []
@@ -1597,6 +1669,24 @@ class Translator:
             return
         names = [c.env[v][0] for v in vars_]
         tup = self.tuple_of(names)
+        if len(vars_) > 1 and len(branches) == 1 and els is None and branches[0][0][0] == "cond" and \
+                all(st[0] == "assign" and st[1] == "=" and st[2][0] == "path" and len(st[2][1]) == 1 for st in branches[0][1]) and \
+                len({st[2][1][0] for st in branches[0][1]}) == len(branches[0][1]) and \
+                not (self.used_names([st[3] for st in branches[0][1]], set()) & set(vars_)):
+            # `if c { x = e1; y = e2; }` with independent right-hand sides: one conditional per variable
+            sub = c.child()
+            head = self.cond_head(branches[0][0], c, sub)
+            rhs = [(st[2][1][0], self.ex(st[3], sub)) for st in branches[0][1]]
+            if head[0] == "if" and not c.pending and not sub.pending:
+                for v, e in rhs:
+                    ln, ty, mut = c.env[v]
+                    if not mut:
+                        raise TranslateError("assignment to immutable variable " + v)
+                    e = self.coerce(e, ty, "assignment")
+                    lines.append(" " * ind + self.letline(ln, ty, f"if {head[1]} then {e.text} else {ln}"))
+                    self.invalidate(c, ln)
+                return
+            c.pending = []
         # in a monadic function, an `if` without panicking sub-expressions stays a pure `let`
         snap = (list(c.pending), dict(c.unwrapped), set(c.names), c.monadic)
         body_lines = None
@@ -1621,9 +1711,13 @@ class Translator:
         if len(names) == 1:
             ty = c.env[vars_[0]][1]
             lines.append(" " * ind + self.letline(names[0], ty, "", bind=used_monadic).rstrip())
+            lines.extend(body_lines)
         else:
-            lines.append(" " * ind + f"let ({', '.join(names)}) {'←' if used_monadic else ':='}")
-        lines.extend(body_lines)
+            st = c.fresh("st")
+            tys = [c.env[v][1] for v in vars_]
+            lines.append(" " * ind + self.letline(st, ("Tup", tys), "", bind=used_monadic).rstrip())
+            lines.extend(body_lines)
+            self.unpack(st, vars_, names, tys, c, ind, lines)
         for n in names:
             self.invalidate(c, n)
 
@@ -1713,13 +1807,193 @@ class Translator:
         if len(names) == 1:
             ty = c.env[vars_[0]][1]
             lines.append(" " * ind + self.letline(names[0], ty, f"{lst}.foldl (fun {tup} {lx} =>"))
+            lines.extend(inner)
+            lines[-1] += f") {tup}"
         else:
-            lines.append(" " * ind + f"let ({', '.join(names)}) := {lst}.foldl (fun {tup} {lx} =>")
-        lines.extend(inner)
-        lines[-1] += f") {tup}"
+            raise TranslateError("for-loop updating several variables")
         for n in names:
             self.invalidate(c, n)
         return False
+
+    # ------------------------------------------------------------------ callbacks: the list of invocations
+    def is_cb_call(self, e, c):
+        return e[0] == "call" and e[1][0] == "path" and len(e[1][1]) == 1 and e[1][1][0] in c.env \
+            and isinstance(c.env[e[1][1][0]][1], tuple) and c.env[e[1][1][0]][1][0] == "Fn"
+
+    def has_calls(self, block, c):
+        for s in block:
+            if s[0] in ("expr", "tail") and self.is_cb_call(s[1], c):
+                return True
+            if s[0] == "if" and (any(self.has_calls(b, c) for _, b in s[1]) or (s[2] is not None and self.has_calls(s[2], c))):
+                return True
+            if s[0] == "for" and self.has_calls(s[3], c):
+                return True
+        return False
+
+    def cb_item(self, e, c):
+        """`func(piece, from, to, promo)` -> `Rawr.gm piece from to promo`."""
+        tys = c.env[e[1][1][0]][1][1]
+        if tys != ["Pc", "Sq", "Sq", "Pc"] or len(e[2]) != 4:
+            raise TranslateError("callback of an unexpected type")
+        as_ = [self.coerce(self.ex(a, c), t, "callback argument") for a, t in zip(e[2], tys)]
+        if c.pending:
+            raise TranslateError("possibly panicking expression in a callback argument")
+        return self.app("Rawr.gm", as_)
+
+    def emit_block(self, stmts, c, ind):
+        """A block that calls the callback: the Lean term (lines) of the LIST of its invocations, in order.
+        `func(a,b,c,d);` is `[gm a b c d]`, a sequence is `++`, `if` is `if`, `for x in bb` is `flatMap` over
+        `toList bb` (`map` when the body is a single invocation), statements without invocation are `let`s."""
+        lines, parts = [], []
+        i = 0
+        while i < len(stmts):
+            s = stmts[i]
+            k = s[0]
+            if k in ("expr", "tail") and self.is_cb_call(s[1], c):
+                items = []
+                while i < len(stmts) and stmts[i][0] in ("expr", "tail") and self.is_cb_call(stmts[i][1], c):
+                    items.append(self.cb_item(stmts[i][1], c))
+                    i += 1
+                parts.append(("lit", "[" + ", ".join(items) + "]"))
+                continue
+            if k == "if" and self.has_calls([s], c):
+                _, branches, els = s
+                blocks = [b for _, b in branches] + ([els] if els is not None else [])
+                if any(self.has_return(b) for b in blocks) or any(self.assigned(b, c) for b in blocks):
+                    raise TranslateError("an `if` that calls the callback may not assign outer variables or return")
+                il = []
+                self.chain(branches, els, c, ind + 4, il, lambda blk, sub, ind2: self.emit_block(blk, sub, ind2),
+                           lambda sub, ind2: [" " * ind2 + "[]"])
+                parts.append(("term", il))
+            elif k == "for" and self.has_calls([s], c):
+                _, pat, it, body = s
+                if pat[0] != "pvar":
+                    raise TranslateError("tuple pattern in for")
+                x, lx = pat[1], lname(pat[1])
+                b = self.ex(it, c)
+                if b.ty != "BB":
+                    raise TranslateError("for-loop over a non-bitboard")
+                sub = c.child()
+                sub.env[x] = (lx, "Sq", False)
+                if self.has_return(body) or self.assigned(body, sub, {x}):
+                    raise TranslateError("a loop that calls the callback may not assign outer variables or return")
+                inner = self.emit_block(body, sub, ind + 8)
+                single = inner[-1].strip()
+                if single.startswith("[(Rawr.gm ") and single.endswith(")]") and single.count("Rawr.gm") == 1 \
+                        and all(l.strip().startswith("let ") and l.startswith(" " * (ind + 8) + "let ") for l in inner[:-1]) \
+                        and getattr(sub, "last_emit_single", False):
+                    inner[-1] = inner[-1].replace(single, single[1:-1])
+                    head = f"(Rawr.toList {b.text}).map (fun {lx} =>"
+                else:
+                    head = f"(Rawr.toList {b.text}).flatMap (fun {lx} =>"
+                inner[-1] += ")"
+                parts.append(("term", [" " * (ind + 4) + head] + inner))
+            elif k == "let":
+                self.do_let(s, c, ind, lines)
+            elif k == "assign":
+                self.do_assign(s, c, ind, lines)
+            elif k == "if":
+                if any(self.has_return(b) for _, b in s[1]) or (s[2] is not None and self.has_return(s[2])):
+                    raise TranslateError("`return` in a function with a callback")
+                self.effect_if(s[1], s[2], c, ind, lines)
+            elif k == "for":
+                if self.do_for(s, stmts[i + 1:], c, ind, lines, "effect", lambda: None):
+                    raise TranslateError("for-loop with return in a function with a callback")
+            else:
+                raise TranslateError("statement not supported in a function with a callback: " + k)
+            if c.pending:
+                raise TranslateError("possibly panicking expression in a function with a callback")
+            if parts and parts[-1][0] == "term":
+                nm = c.fresh("calls")
+                lines.append(" " * ind + f"let {nm} : List GMv :=")
+                lines.extend(parts[-1][1])
+                parts[-1] = ("name", nm)
+            i += 1
+        c.last_emit_single = len(parts) == 1 and parts[0][0] == "lit"
+        if not parts:
+            lines.append(" " * ind + "[]")
+        elif len(parts) == 1 and parts[0][0] == "name" and lines and lines[-1] is not None and self._last_is(lines, parts[0][1], ind):
+            # a single compound item at the very end: no need to name it
+            self._inline_last(lines, parts[0][1], ind)
+        else:
+            lines.append(" " * ind + " ++ ".join(t[1] for t in parts))
+        return lines
+
+    @staticmethod
+    def _last_is(lines, nm, ind):
+        head = " " * ind + f"let {nm} : List GMv :="
+        idx = max(k for k, l in enumerate(lines) if l == head) if head in lines else -1
+        if idx < 0:
+            return False
+        return all(l.startswith(" " * (ind + 1)) for l in lines[idx + 1:])
+
+    @staticmethod
+    def _inline_last(lines, nm, ind):
+        head = " " * ind + f"let {nm} : List GMv :="
+        idx = max(k for k, l in enumerate(lines) if l == head)
+        body = [l[4:] for l in lines[idx + 1:]]
+        del lines[idx:]
+        lines.extend(body)
+
+    # ------------------------------------------------------------------ closures passed to a callback-taking method
+    def closure_loop(self, e, c, ind, lines):
+        """`obj.method(|a, b, c, d| { body })` where `method` takes a callback: the body runs once per invocation,
+        in order: a fold over the list of invocations (`return;` in the body ends that invocation)."""
+        info = self.method_info(e, c)
+        recv = self.ex(e[1], c)
+        clo = e[4][0]
+        ps, body = clo[1], clo[2]
+        if len(ps) != 4:
+            raise TranslateError("closure of an unexpected arity")
+        g = c.fresh("g")
+        sub = c.child()
+        binds = []
+        for pn, (proj, ty) in zip(ps, ((".piece", "Pc"), (".mv.src", "Sq"), (".mv.dst", "Sq"), (".mv.promo", "Pc"))):
+            lp = lname(pn)
+            sub.env[pn] = (lp, ty, False)
+            binds.append(" " * (ind + 4) + self.letline(lp, ty, g + proj))
+        vars_ = self.assigned(body, sub, set(ps))
+        for v in vars_:
+            if v not in c.env:
+                raise TranslateError("assignment to unknown variable " + v)
+        if len(vars_) != 1:
+            raise TranslateError("the closure must update exactly one captured variable")
+        names = [c.env[v][0] for v in vars_]
+        tup = self.tuple_of(names)
+        saved = sub.monadic
+        sub.monadic = False
+        sub.in_closure = True
+        sub.closure_fall = lambda: tup
+        try:
+            inner = self.block(body, sub, ind + 4, "effect", lambda: tup)
+        except NeedMonad as ex:
+            raise TranslateError("possibly panicking expression inside a closure: " + str(ex))
+        sub.monadic = saved
+        self.flush(c, ind, lines)
+        ty = c.env[vars_[0]][1]
+        text = self.app("R." + info.lean, [recv])
+        lines.append(" " * ind + self.letline(names[0], ty, f"{text}.foldl (fun {tup} {g} =>"))
+        lines.extend(binds)
+        lines.extend(inner)
+        lines[-1] += f") {tup}"
+        self.invalidate(c, names[0])
+
+    def is_closure_call(self, e, c):
+        if e[0] == "mcall" and len(e[4]) == 1 and e[4][0][0] == "closure":
+            info = self.method_info(e, c)
+            return info is not None and getattr(info, "callback", False)
+        return False
+
+    def is_push(self, e, c):
+        return e[0] == "mcall" and e[2] == "push" and len(e[4]) == 1 and e[1][0] == "path" and len(e[1][1]) == 1 \
+            and e[1][1][0] in c.env and isinstance(c.env[e[1][1][0]][1], tuple) and c.env[e[1][1][0]][1][0] == "List"
+
+    def ex_struct(self, e, c):
+        segs, fields = e[1], e[2]
+        if segs != ["Mv"] or [f for f, _ in fields] != ["from", "to", "promo"]:
+            raise TranslateError("struct literal not supported: " + "::".join(segs))
+        vals = [self.coerce(self.ex(v, c), MV_FIELDS[f][1], "Mv field") for f, v in fields]
+        return Ex("({ " + ", ".join(f"{MV_FIELDS[f][0]} := {v.text}" for (f, _), v in zip(fields, vals)) + " } : Mv)", "Mv")
 
     # ------------------------------------------------------------------ functions
     def function(self, src, rust_name, what, key, lean_name, self_name="s"):
@@ -1733,14 +2007,59 @@ class Translator:
         self.fns[key] = info
         self.out.append(text)
 
-    def compile_fn(self, fn, lean_name, self_name, monadic, what):
+    @staticmethod
+    def used_names(node, acc):
+        if isinstance(node, tuple):
+            if len(node) == 3 and node[0] == "path" and isinstance(node[1], list) and len(node[1]) == 1:
+                acc.add(node[1][0])
+            for x in node:
+                Translator.used_names(x, acc)
+        elif isinstance(node, list):
+            for x in node:
+                Translator.used_names(x, acc)
+        return acc
+
+    def functions_sharing_prefix(self, specs, prefix_lean, self_name="s"):
+        """Several Rust functions whose bodies start with the same statements (compared as syntax trees): the shared
+        statements are compiled ONCE, as `R.<prefix_lean>`, returning the tuple of the variables used later; each
+        function then starts from that tuple.  specs: (source text, rust name, file, key, lean name)."""
+        fns = [Parser(find_fn(src, rn, what), f"{what}::{rn}").function() for src, rn, what, _, _ in specs]
+        k = 0
+        while all(len(f["body"]) > k for f in fns) and all(f["body"][k] == fns[0]["body"][k] for f in fns):
+            k += 1
+        while k > 0 and fns[0]["body"][k - 1][0] != "let":
+            k -= 1
+        if k < 2 or any(f["self"] != "ref" or f["generics"] for f in fns):
+            raise TranslateError("no shared statement prefix in " + ", ".join(sp[1] for sp in specs))
+        used = set()
+        for f in fns:
+            self.used_names(f["body"][k:], used)
+        pf = dict(fns[0], name=prefix_lean, params=[], body=fns[0]["body"][:k], ret=("ty", "Prefix", []))
+        holder = [used]
+        text, info = self.compile_fn_prefix(pf, prefix_lean, self_name, specs[0][2], holder)
+        live = holder[1]
+        self.out.append(text)
+        for f, (src, rn, what, key, lean_name) in zip(fns, specs):
+            g = dict(f, body=f["body"][k:])
+            text, info = self.compile_fn(g, lean_name, self_name, False, what, prefix=(prefix_lean, live))
+            self.fns[key] = info
+            self.out.append(text)
+
+    def compile_fn_prefix(self, fn, lean_name, self_name, what, holder):
+        fn = dict(fn, ret=None)
+        return self.compile_fn(fn, lean_name, self_name, False, what, prefix_live=holder)
+
+    def compile_fn(self, fn, lean_name, self_name, monadic, what, prefix=None, prefix_live=None):
+        """`prefix` = (lean name of the compiled shared prefix, [(rust name, lean name, type, mutable)]): the body of
+        `fn` is then only the part AFTER the shared statements; `prefix_live` (a list to fill) makes this call compile
+        the shared statements themselves, returning the tuple of the variables named in `prefix_live[0]`."""
         ret = conv_type(fn["ret"])
         mutself = fn["self"] == "mut"
         if mutself:
             if ret != "Unit":
                 raise TranslateError("&mut self method with a return value")
             ret = "Pos"
-        if ret == "Unit":
+        if ret == "Unit" and not any(t[0] == "fn" for _, t in fn["params"]) and prefix_live is None:
             raise TranslateError("function without a result")
         c = Ctx(self, monadic, ret)
         binders = []
@@ -1749,8 +2068,15 @@ class Translator:
             c.names.add(self_name)
             binders.append(f"({self_name} : Position)")
         params = []
+        callback = None
         for p, t in fn["params"]:
             ty = conv_type(t)
+            if isinstance(ty, tuple) and ty[0] == "Fn":
+                if callback or ret != "Unit" or mutself:
+                    raise TranslateError("callback parameter in an unsupported position")
+                callback = p
+                c.env[p] = (p, ty, False)
+                continue
             lp = lname(p)
             c.env[p] = (lp, ty, False)
             c.names.add(lp)
@@ -1763,15 +2089,50 @@ class Translator:
             params.append((g, ty))
             binders.append(f"({g} : {lean_ty(ty)})")
         fall = (lambda: self.wrap(c, self_name)) if mutself else (lambda: None)
+        pre_lines = []
+        if prefix is not None:
+            pname, live = prefix
+            if monadic:
+                raise TranslateError("shared prefix in a possibly panicking function")
+            pre_lines.append(f"  let pre := (R.{pname} {self_name})")
+            c.names.add("pre")
+            for k, (rn, ln, ty, mut) in enumerate(live):
+                proj = ".2" * k + (".1" if k < len(live) - 1 else "")
+                pre_lines.append("  " + self.letline(ln, ty, "pre" + proj))
+                c.env[rn] = (ln, ty, mut)
+                c.names.add(ln)
         try:
-            lines = self.block(fn["body"], c, 2, "value", fall)
+            if prefix_live is not None:
+                used = prefix_live[0]
+                outer = set(c.env)
+
+                def fin():
+                    live = [(rn, c.env[rn][0], c.env[rn][1], c.env[rn][2]) for rn in c.env if rn not in outer and rn in used]
+                    if len(live) < 2:
+                        raise TranslateError("shared prefix with fewer than two live variables")
+                    prefix_live.append(live)
+                    return "(" + ", ".join(l[1] for l in live) + ")"
+                if monadic or callback:
+                    raise TranslateError("shared prefix: unsupported function kind")
+                lines = self.block(fn["body"], c, 2, "effect", fin)
+                ret = ("Tup", [l[2] for l in prefix_live[1]])
+            elif callback:
+                if monadic:
+                    raise TranslateError("possibly panicking expression in a function with a callback")
+                ret = ("List", "GMv")          # the callback invocations, in order
+                c.rettype = ret
+                lines = self.emit_block(fn["body"], c, 2)
+            else:
+                lines = self.block(fn["body"], c, 2, "value", fall)
         except TranslateError as ex:
             raise TranslateError(f"{what}::{fn['name']}: {ex}")
         rty = lean_ty(ret)
         if monadic:
             rty = "Option " + (f"({rty})" if " " in rty else rty)
         head = f"def {lean_name} {' '.join(binders)} : {rty} :=" + (" do" if monadic else "")
+        lines = pre_lines + lines
         info = FnInfo(lean_name, params, ret, monadic, mutself, bool(fn["self"]))
+        info.callback = bool(callback)
         return head + "\n" + "\n".join(lines) + "\n", info
 
 
@@ -1821,6 +2182,13 @@ def generate():
     ev = read("src/search/eval.rs")
     for f in ("get_phase", "taper", "eval_us", "eval"):
         T.function(ev, f, "eval.rs", f, f)
+    # ---- move_generator.rs, legal_moves.rs, legal_captures.rs, count_moves.rs
+    T.functions_sharing_prefix([
+        (read("src/chess/move_generator.rs"), "move_generator", "move_generator.rs", "Position::move_generator", "move_generator"),
+        (read("src/chess/count_moves.rs"), "count_moves", "count_moves.rs", "Position::count_moves", "count_moves")],
+        "move_generator_prefix")
+    T.function(read("src/chess/legal_moves.rs"), "legal_moves", "legal_moves.rs", "Position::legal_moves", "legal_moves")
+    T.function(read("src/chess/legal_captures.rs"), "legal_captures", "legal_captures.rs", "Position::legal_captures", "legal_captures")
     T.out.append("end Rawr.R\n")
     return "\n".join(T.out)
 
